@@ -6,7 +6,8 @@ import ast
 import re
 
 from ..cfg import cfg_of
-from ..core import AnalysisError, call_name, dotted, unparse, walk_no_nested
+from ..core import AnalysisError, call_name, const_value, dotted, unparse, walk_no_nested
+from ..pattern import body_is, find, has
 from ..report import Ctx
 
 
@@ -69,9 +70,25 @@ def run(ctx: Ctx) -> None:
     ctx.add('C15.R2', 'iter-writer:lines', ok, (f.file, loops[0].lineno if loops else f.line),
             f'each line is {det}: canonical name, lossless value' if ok else f'line format {det or "not found"}: name must be free_betas.names[i] and the value must be written without a precision', det)
     ld = B.methods['_load_saved_iteration']
-    txt = unparse(ld.node)
-    m = re.search(r"(\w+) = line\.split\('(.)'\)", txt)
-    ok = m is not None and sep is not None and m.group(2) == sep.strip() and f'betas[{m.group(1)}[0].strip()] = float({m.group(1)}[1])' in txt and 'self.change_init_values(betas)' in txt
+    b = find(ld.node, """
+_FN = self._save_iterations_file_name()
+_B = {}
+try:
+    with open(_FN, encoding=__ENC) as _FP:
+        for _LINE in _FP:
+            _L = _LINE.split(__SEP)
+            _B[_L[0].strip()] = float(_L[1])
+    self.change_init_values(_B)
+    ___
+except OSError:
+    ___
+""")
+    ok = False
+    if b is not None and sep is not None:
+        try:
+            ok = const_value(b['__SEP'][1]) == sep.strip()
+        except ValueError:
+            ok = False
     ctx.add('C15.R2', 'iter-reader', ok, ld, 'the reader splits on the same separator, strips the name and float()s the value, then updates the starting values' if ok else 'the reader does not mirror the writer', 'reader')
     okn = [unparse(s) for s in fn.body] == ["return f'__{self.modelName}.iter'"]
     ctx.add('C15.R2', 'iter-file-name', okn, fn, 'one file per model name' if okn else 'iteration file name changed', 'name')
@@ -79,17 +96,27 @@ def run(ctx: Ctx) -> None:
     guard = [n for n in walk_no_nested(f.node) if isinstance(n, ast.If) and unparse(n.test) == 'self.save_iterations']
     ok = False
     det = ''
-    if len(guard) == 1:
-        # elif of `if not np.isfinite(gradnorm)`
-        parent = [n for n in walk_no_nested(f.node) if isinstance(n, ast.If) and guard[0] in n.orelse]
-        fin = len(parent) == 1 and re.fullmatch(r'not np\.isfinite\((\w+)\)', unparse(parent[0].test)) is not None
-        best = [n for n in guard[0].body if isinstance(n, ast.If) and re.fullmatch(r'f >= self\.bestIteration', unparse(n.test))]
-        init = [n for n in guard[0].body if isinstance(n, ast.If) and unparse(n.test) == 'self.bestIteration is None' and [unparse(s) for s in n.body] == ['self.bestIteration = f']]
-        det = unparse(guard[0])[:200]
-        if fin and len(best) == 1 and len(init) == 1 and init[0].lineno < best[0].lineno:
-            upd = [s for s in best[0].body if isinstance(s, ast.Assign) and unparse(s) == 'self.bestIteration = f']
-            writes_inside = all(best[0].lineno <= c.lineno <= best[0].end_lineno for c in rep + mk)
-            ok = len(upd) == 1 and writes_inside and not best[0].orelse
+    eng = [n for n in walk_no_nested(f.node) if isinstance(n, ast.Assign) and isinstance(n.value, ast.Call) and unparse(n.value.func) == 'self.theC.calculateLikelihoodAndDerivatives'
+           and isinstance(n.targets[0], ast.Tuple) and all(isinstance(e, ast.Name) for e in n.targets[0].elts)]
+    if len(guard) == 1 and len(eng) == 1:
+        F, G = eng[0].targets[0].elts[0].id, eng[0].targets[0].elts[1].id
+        det = unparse(guard[0])[:200].replace(F, 'f')
+        b = find(f.node, f"""
+_GN = np.linalg.norm({G})
+___
+if not np.isfinite(_GN):
+    ___
+elif self.save_iterations:
+    if self.bestIteration is None:
+        self.bestIteration = {F}
+    if {F} >= self.bestIteration:
+        self.bestIteration = {F}
+        ___
+""")
+        if b is not None:
+            best = [n for n in guard[0].body if isinstance(n, ast.If) and unparse(n.test) == f'{F} >= self.bestIteration']
+            writes_inside = len(best) == 1 and all(best[0].lineno <= c.lineno <= best[0].end_lineno for c in rep + mk)
+            ok = writes_inside and not best[0].orelse and len(guard[0].body) == 2
     ctx.add('C15.R3', 'iter-writer:best-so-far', ok, (f.file, guard[0].lineno if guard else f.line),
             'written only with finite derivatives and f >= bestIteration; the marker is raised to f on every write' if ok else 'the best-so-far discipline of the iteration file is broken (guard, marker update or finite-derivative test)', det)
     e = B.methods['estimate']
